@@ -149,7 +149,7 @@ class Sym:
         preds = self.fn.preds()
         out = []
         if block in dom:
-            for d in dom[block]:
+            for d in sorted(dom[block], key=lambda x: (len(dom[x]), x)):
                 t = self.fn.blocks[d]["term"]
                 if t["t"] != "switch":
                     continue
